@@ -1,5 +1,5 @@
 #!/bin/sh
-# tools/try_seeded.sh <dir containing patch.diff and demo.py> <Cxx> [tier]
+# tools/try_seeded.sh <dir containing patch.diff (or patch_head.diff, preferred when present) and demo.py> <Cxx> [tier]
 # Applies the seeded change to a scratch worktree of /repo, confirms the demo (fails with, passes without),
 # runs ./check against it, removes the worktree.  Never touches /repo's working tree.
 # BASELINE=1 also runs the pinned test-suite (tools/baseline_check.py) on the changed worktree (about 2.5 minutes).
@@ -9,7 +9,9 @@ mkdir -p "$(dirname "$wt")"
 git -C /repo worktree add -q "$wt" HEAD || exit 2
 cp /repo/src/easynetwork/version.py "$wt/src/easynetwork/version.py"
 echo "== demo on unchanged tree"; (cd "$wt" && PYTHONPATH="$wt/src" timeout 300 /venv/bin/python "$d/demo.py" > /dev/null 2>&1; echo "exit=$?")
-(cd "$wt" && git apply "$d/patch.diff") || { echo "patch does not apply"; git -C /repo worktree remove --force "$wt"; exit 2; }
+patch="$d/patch.diff"
+[ -f "$d/patch_head.diff" ] && patch="$d/patch_head.diff"      # the same edit re-created on /repo HEAD after later fix: commits
+(cd "$wt" && git apply "$patch") || { echo "patch does not apply"; git -C /repo worktree remove --force "$wt"; exit 2; }
 echo "== demo on changed tree"; (cd "$wt" && PYTHONPATH="$wt/src" timeout 300 /venv/bin/python "$d/demo.py" 2>&1 | tail -3; echo "exit=$?")
 if [ -n "$BASELINE" ]; then echo "== pinned baseline on changed tree"; (cd /verif && VERIF_REPO="$wt" timeout 3000 /venv/bin/python tools/baseline_check.py 2>&1 | tail -4); fi
 echo "== check $id on changed tree"
